@@ -152,6 +152,9 @@ func (pc *c34PC) WriteTo(p []byte, dstAddr net.Addr) (int, error) {
 	}
 	drop, reorder, dup := pc.tn.params()
 	pkt := testPacket{b: bytes.Clone(p), src: pc.addr}
+	if c34Trace {
+		defer func() { pc.trace(p, ap) }()
+	}
 	pc.fmu.Lock()
 	r := pc.rng
 	doDrop := drop > 0 && r.Intn(1000) < drop
@@ -159,6 +162,9 @@ func (pc *c34PC) WriteTo(p []byte, dstAddr net.Addr) (int, error) {
 	doHold := reorder > 0 && r.Intn(1000) < reorder
 	var release *testPacket
 	var releaseDst *c34PC
+	if c34Trace && (doDrop || doDup || (doHold && pc.held == nil)) {
+		fmt.Fprintf(os.Stderr, "TRACE   next: drop=%v dup=%v hold=%v\n", doDrop, doDup, doHold && pc.held == nil)
+	}
 	if doDrop {
 		pc.tn.mu.Lock()
 		pc.tn.dropped++
@@ -188,6 +194,19 @@ func (pc *c34PC) WriteTo(p []byte, dstAddr net.Addr) (int, error) {
 		pc.deliver(releaseDst, *release) // the held datagram arrives after a later one
 	}
 	return len(p), nil
+}
+
+var c34Trace = os.Getenv("VERIF_C34_TRACE") != ""
+var c34T0 = time.Now()
+
+// trace prints one line per datagram (debugging aid, VERIF_C34_TRACE=1): virtual time, direction,
+// size, QUIC packet kind of the first coalesced packet.
+func (pc *c34PC) trace(p []byte, dst netip.AddrPort) {
+	kind := "1rtt"
+	if len(p) > 0 && p[0]&0x80 != 0 {
+		kind = []string{"initial", "0rtt", "handshake", "retry"}[(p[0]>>4)&3]
+	}
+	fmt.Fprintf(os.Stderr, "TRACE t=%v %v->%v len=%d %s\n", time.Since(c34T0).Round(time.Millisecond), pc.addr.Addr(), dst.Addr(), len(p), kind)
 }
 
 func (pc *c34PC) Close() error {
@@ -1068,7 +1087,12 @@ func (rig *c34Rig) rawResp(c c34Case, method string, status int, clStr string, t
 	if f[4] != "-" {
 		got = vu.MustHex(f[4])
 	}
-	if method != "HEAD" {
+	if method == "HEAD" || status == 304 {
+		// bodyless response: Content-Length describes the representation, not the (absent) content
+		if len(data) == 0 && f[5] != "eof" {
+			o.Fail("rawresp-bodyless-read-error", cres)
+		}
+	} else {
 		mismatch := declared >= 0 && int64(len(data)) != declared
 		if !bytes.HasPrefix(data, got) {
 			o.Fail("rawresp-body-not-prefix", "client read bytes that were not sent in DATA frames")
